@@ -25,12 +25,17 @@ func runAll(e *Engine, expr ast.Expr, vals map[string]*val.Val, names []string) 
 	return
 }
 
-// agree asserts the C03 relation between the back ends.
+// agree asserts the C03 relation between the back ends; the closure compiler
+// is the reference the others are compared with.
 func agree(res [NBackends]*val.Val, cls [NBackends]string) {
-	for b := 1; b < NBackends; b++ {
-		sv.Assert("all-fail-or-all-succeed:"+BackendNames[b], (cls[0] == "ok") == (cls[b] == "ok"))
-		if cls[0] == "ok" && cls[b] == "ok" {
-			sv.Assert("equal-values:"+BackendNames[b], RefSameVal(res[0], res[b]))
+	const ref = 2
+	for b := 0; b < NBackends; b++ {
+		if b == ref {
+			continue
+		}
+		sv.Assert("all-fail-or-all-succeed:"+BackendNames[b], (cls[ref] == "ok") == (cls[b] == "ok"))
+		if cls[ref] == "ok" && cls[b] == "ok" {
+			sv.Assert("equal-values:"+BackendNames[b], RefSameVal(res[ref], res[b]))
 		}
 	}
 	for b := 0; b < NBackends; b++ {
@@ -147,6 +152,50 @@ func H03_ops() {
 	sv.Assert("accepted", cls == "ok")
 	vals := progVals(p)
 	res, c := runAll(e, expr, vals, p.names)
+	agree(res, c)
+	sv.Reach("compared")
+}
+
+// H03_dynamic: calling a function-typed value (strict or lazy) gives the same
+// result on every back end.
+func H03_dynamic() {
+	e := NewEngine()
+	ft := types.Fun("f", []*types.Type{tBool, tNum, tNum}, tNum)
+	lazy := sv.Choice("callee-lazy", 2) == 1
+	sv.Region("callee-is-a-lazy-function-value", lazy)
+	var f *val.Val
+	if lazy {
+		f = val.LazyFun(ft, func(args ...*val.Val) *val.Val {
+			if args[0].Fun().Call().Bool().V {
+				return args[1].Fun().Call()
+			}
+			return args[2].Fun().Call()
+		})
+	} else {
+		f = val.Fun(ft, func(args ...*val.Val) *val.Val {
+			if args[0].Bool().V {
+				return args[1]
+			}
+			return args[2]
+		})
+	}
+	fs := val.List(types.List(ft).List(), 1).List()
+	fs.V[0] = f
+	srcs := []string{"fs[0](c, a, b)", "fs[0](c && d, a + 1, b)", "get(fs, 0, fs[0])(c, a, b)", "if(d, fs[0], fs[0])(c, a, b)"}
+	src := srcs[sv.Choice("prog", len(srcs))]
+	tys := map[string]*types.Type{"fs": types.List(ft), "a": tNum, "b": tNum, "c": tBool, "d": tBool}
+	names := []string{"fs", "a", "b", "c", "d"}
+	expr, _, cls := e.Front(src, tys, names)
+	sv.Assert("accepted", cls == "ok")
+	a, b := sv.Float64("a"), sv.Float64("b")
+	bv := func(x bool) *val.Val {
+		if x {
+			return val.True
+		}
+		return val.False
+	}
+	vals := map[string]*val.Val{"fs": fs.Vl(), "a": val.Num(a), "b": val.Num(b), "c": bv(sv.Bool("c")), "d": bv(sv.Bool("d"))}
+	res, c := runAll(e, expr, vals, names)
 	agree(res, c)
 	sv.Reach("compared")
 }
